@@ -366,3 +366,100 @@ pub fn check_unrolled_text(orig_imp: &str, logic: bool, model_answer: &str) -> R
         if orig_imp == "(err)" { Ok(()) } else { Err(format!("the reference rejects the program, the compiler expands it to {}", orig_imp)) }
     } else { Err(format!("unexpected model answer {}", model_answer)) }
 }
+
+// ------------------------------------------------------------------------------------------------
+// graph builtins (nodes / edges / neigh_edges / neigh_edges_of) and set functions on values of any kind
+// ------------------------------------------------------------------------------------------------
+struct GN { name: String, edges: Vec<(String, Option<f64>)> }
+fn graph_txt(g: &[GN]) -> String {
+    let nodes: Vec<String> = g.iter().map(|n| if n.edges.is_empty() { n.name.clone() } else {
+        format!("{} -> [{}]", n.name, n.edges.iter().map(|(d, w)| match w { Some(w) => format!("{}: {}", d, if *w < 0.0 { format!("-{}", crate::pre_gen::fmt_f64(-*w)) } else { crate::pre_gen::fmt_f64(*w) }), None => d.clone() }).collect::<Vec<_>>().join(", ")) }).collect();
+    format!("Graph {{ {} }}", nodes.join(", "))
+}
+fn graph_sx(g: &[GN]) -> String {
+    format!("(graph{})", g.iter().map(|n| format!(" (node {}{})", sx::q(&n.name), n.edges.iter().map(|(d, w)| format!(" (edge {} {})", sx::q(d), match w { Some(w) => sx::num(*w), None => "none".into() })).collect::<String>())).collect::<String>())
+}
+fn gen_graph(r: &mut Rng) -> Vec<GN> {
+    let names = ["P", "Q", "R", "T2", "U"];
+    let n = 1 + r.below(5);
+    let mut g: Vec<GN> = (0..n).map(|i| GN { name: names[i].to_string(), edges: vec![] }).collect();
+    for i in 0..n { for j in 0..n { if r.chance(2, 5) { let w = match r.below(4) { 0 => None, 1 => Some(r.range(-4, 9) as f64 / 2.0), 2 => Some(0.0), _ => Some(r.range(1, 5) as f64) }; g[i].edges.push((names[j].to_string(), w)); } } }
+    // `Graph { P, Q }` without any edge list is read as a block function: keep one edge
+    if g.iter().all(|x| x.edges.is_empty()) { let d = g[n - 1].name.clone(); g[0].edges.push((d, None)); }
+    g
+}
+/// rows `(name fragments…, coefficient)` read back from `c_<names>: w * z >= 0 for …`
+fn graph_rows(src: &str, with_weight: bool) -> String {
+    match compile(src) {
+        Ok(m) => {
+            let rows: Vec<String> = m.constraints().iter().skip(1).map(|c| {
+                let names: Vec<String> = c.name().split('_').skip(1).map(|s| sx::q(s)).collect();
+                let w = if with_weight { match c.lhs() { rooc::model_transformer::Exp::BinOp(_, a, _) => match &**a { rooc::model_transformer::Exp::Number(x) => format!(" {}", sx::num(*x)), _ => " ?".into() }, _ => " ?".into() } } else { String::new() };
+                if names.len() == 1 && !with_weight { names[0].clone() } else { format!("({}{})", names.join(" "), w) }
+            }).collect();
+            format!("(ok {})", rows.join(" ")).replace("(ok )", "(ok)")
+        }
+        Err(e) => err_class(&e),
+    }
+}
+
+pub fn graph_cases(r: &mut Rng, n: usize) -> Vec<Case> {
+    let mut out = vec![];
+    for _ in 0..n {
+        let g = gen_graph(r);
+        let (gt, gs) = (graph_txt(&g), graph_sx(&g));
+        let decl = format!("where\n    let G = {}\ndefine\n    z as Real\n", gt);
+        for f in ["edges", "E"] {
+            let src = format!("min 1\ns.t.\n    z >= 0\n    c_u_v: w * z >= 0 for (u, v, w) in {}(G)\n{}", f, decl);
+            out.push(mk(format!("graph edges {}", gs), graph_rows(&src, true), &["graph:edges"], src));
+        }
+        for f in ["nodes", "V"] {
+            let src = format!("min 1\ns.t.\n    z >= 0\n    c_u: z >= 0 for u in {}(G)\n{}", f, decl);
+            out.push(mk(format!("graph nodes {}", gs), graph_rows(&src, false), &["graph:nodes"], src));
+        }
+        for f in ["neigh_edges", "N"] {
+            let src = format!("min 1\ns.t.\n    z >= 0\n    c_u_v: w * z >= 0 for u in nodes(G), (_, v, w) in {}(u)\n{}", f, decl);
+            out.push(mk(format!("graph neighall {}", gs), graph_rows(&src, true), &["graph:neigh_edges"], src));
+        }
+        for f in ["neigh_edges_of", "N_of"] {
+            let name = if r.chance(1, 5) { "Z9".to_string() } else { g[r.below(g.len())].name.clone() };
+            let src = format!("min 1\ns.t.\n    z >= 0\n    c_v: w * z >= 0 for (_, v, w) in {}(\"{}\", G)\n{}", f, name, decl);
+            out.push(mk(format!("graph neighof {} {}", gs, sx::q(&name)), graph_rows(&src, true), &["graph:neigh_edges_of"], src));
+        }
+    }
+    out
+}
+
+/// set functions over arrays of numbers (integers, halves), strings, booleans and mixtures, read back from the
+/// names `c_<element>` of a quantified constraint
+pub fn svset_cases(r: &mut Rng, n: usize) -> Vec<Case> {
+    #[derive(Clone)]
+    enum SV { I(i64), F(f64), S(String), B(bool) }
+    fn txt(v: &SV) -> String { match v { SV::I(i) => i.to_string(), SV::F(x) => crate::pre_gen::fmt_f64(*x), SV::S(s) => format!("\"{}\"", s), SV::B(b) => b.to_string() } }
+    fn sxv(v: &SV) -> String { match v { SV::I(i) => format!("(num {})", sx::num(*i as f64)), SV::F(x) => format!("(num {})", sx::num(*x)), SV::S(s) => format!("(str {})", sx::q(s)), SV::B(b) => format!("(bool {})", b) } }
+    let mut out = vec![];
+    for i in 0..n {
+        let mode = i % 5;
+        let mut mk_arr = |r: &mut Rng| -> Vec<SV> {
+            let len = r.below(5);
+            (0..len).map(|_| match mode {
+                0 => SV::I(r.range(0, 5)),
+                1 => if r.chance(1, 2) { SV::F(r.range(0, 10) as f64 / 2.0) } else { SV::I(r.range(0, 5)) },
+                2 => SV::S(r.pick(&["a", "b", "c1", "1"]).to_string()),
+                3 => match r.below(3) { 0 => SV::S(r.pick(&["a", "1", "T"]).to_string()), 1 => SV::I(r.range(0, 2)), _ => SV::F(r.range(0, 4) as f64 / 2.0) },
+                _ => if r.chance(1, 2) { SV::B(r.chance(1, 2)) } else { SV::I(r.range(0, 2)) },
+            }).collect()
+        };
+        let (a, b) = (mk_arr(r), mk_arr(r));
+        if a.is_empty() || b.is_empty() { continue; }
+        for f in ["union", "intersection", "difference"] {
+            let src = format!("min 1\ns.t.\n    z >= 0\n    c_v: z >= 0 for v in {}(A, B)\nwhere\n    let A = [{}]\n    let B = [{}]\ndefine\n    z as Real\n", f,
+                a.iter().map(txt).collect::<Vec<_>>().join(", "), b.iter().map(txt).collect::<Vec<_>>().join(", "));
+            // the type checker is not involved (parse_and_transform); arrays of different kinds are fine at run time
+            let imp = graph_rows(&src, false);
+            let req = format!("svset {} ({}) ({})", f, a.iter().map(sxv).collect::<Vec<_>>().join(" "), b.iter().map(sxv).collect::<Vec<_>>().join(" "));
+            out.push(mk(req, imp, &[&format!("svset:{}", f), &format!("svset-mode:{}", ["ints", "ints+halves", "strings", "mixed", "bools+ints"][mode])], src));
+        }
+    }
+    out
+}
